@@ -38,7 +38,7 @@ NodeClauses(s, r, nd, reach, isFirst) ==
                                    IsZero(Requested(s, nd, r.t)) \/ ~IsZero(N(r.dem[n]))) ELSE {})
                    ELSE IF Want(s, "C07") THEN
                           (IF nd.dem = <<>> THEN {} ELSE
-                           LET pp == PddParams(s, nd)  p == N(r.press[n]) IN
+                           LET pp == PddParamsAt(s, nd, r.t)  p == N(r.press[n]) IN
                            IF Gt(p, Add(pp.pmin, Delta)) /\ Lt(p, Sub(pp.preq, Delta))
                               /\ ~PowCert(N(r.cert[n].x), pp.pexp[1], pp.pexp[2], N(r.cert[n].xpow), PK)
                            THEN {"CERT.bad"} ELSE PDDClauses(s, r, nd))
